@@ -638,6 +638,14 @@ def pool_for(draw, which):
         elif c == 4:
             pool.append(["Sum", [b, ["Const", "int", 4]]])
             pool.append(["Sum", [b, ["Const", "float", 4.0]]])
+        elif c == 5:
+            # unequal, with equal hashes (hash(-1) == hash(-2) in CPython)
+            shape = draw(st.sampled_from((
+                lambda k: ["Sum", [b, ["Const", "int", k]]],
+                lambda k: ["Power", b, ["Const", "int", k]],
+                lambda k: ["Product", [["Const", "int", k], b]])))
+            pool.append(shape(-1))
+            pool.append(shape(-2))
         elif c == 6:
             # retyped constants under *different* parents: separate cache keys
             pool.append(["Sum", [b, ["Const", "int", 4], ["Const", "bool", True]]])
